@@ -646,6 +646,18 @@ func (ep *episode) exec(o opSpec) []any {
 		return []any{"res", "val", "sub", m.Submitted(), "comp", m.Completed(), "succ", m.Successful(), "fail", m.Failed()}
 	case "WStatus":
 		return []any{"res", "val", "ws", ep.wstatus()}
+	case "Introspect":
+		// the remaining read-only calls of the Worker interface (their values are not compared: race detector, crash freedom)
+		// (Errs first: the calls after it synchronise on the worker's mutex and would hide an unsynchronised read from the detector)
+		_ = ep.w.Errs()
+		_ = ep.w.Context()
+		return []any{"res", "val", "ws", ep.wstatus(), "conc", ep.w.NumConcurrency()}
+	case "Info":
+		h := ep.job(o.Job)
+		if h == nil {
+			return []any{"res", "nohandle"}
+		}
+		return []any{"res", "val", "id", h.base.ID(), "closed", h.base.IsClosed(), "status", h.base.Status()}
 	case "Pause":
 		return []any{"res", errName(ep.w.Pause()), "ws", ep.wstatus()}
 	case "PauseAndWait":
